@@ -10,6 +10,13 @@ Translation validation of interrogate's generated handle-style wrappers (-c back
   (function, parameter types) key on twin arguments, and asserts equal result, equal trace cell, equal object
   post-state and equal aliasing  ->  lower (clang) -> ll2c -> CBMC per wrapper  ->  native replay of counterexamples.
 
+Compile gates (each failure is a VIOLATION): the generated file is a well-formed translation unit; every wrapper that is
+callable by name, redeclared after the generated code with the return and parameter types the DATABASE records, is not a
+conflicting declaration (C11: recorded signature = emitted signature).
+-refcount (option sets c_refcount_fnames / c_refcount) runs only on corpus headers that opt in through //OPTIONS (s7:
+reference-counted class + PointerTo<T>; the reference calls state the contract "wrapped function called once, caller
+receives the raw pointer plus one new reference").
+
 exit 0: every wrapper of every corpus entry verified; exit 1: VIOLATION (confirmed); exit 2: infrastructure error.
 """
 import sys, os, re, json, time, shutil, subprocess, tempfile, argparse, glob, hashlib, traceback
@@ -27,13 +34,18 @@ BASE_OPTS = ['-DCPPPARSER', '-D__STDC__=1', '-D__cplusplus=201103L', '-D_LP64=1'
 OPTION_SETS = {
     # wrappers are callable from outside the generated file only with -fnames; the other sets are compile-checked
     'quick': [('c_fnames', ['-c', '-fnames']), ('c_string_fnames', ['-c', '-string', '-fnames']), ('c', ['-c']),
-              ('c_promisc_fnames', ['-c', '-promiscuous', '-fnames']), ('py_string_fnames', ['-python', '-string', '-fnames'])],
+              ('c_promisc_fnames', ['-c', '-promiscuous', '-fnames']), ('py_string_fnames', ['-python', '-string', '-fnames']),
+              ('c_refcount_fnames', ['-c', '-refcount', '-fnames'])],
     'thorough': [('c_fnames', ['-c', '-fnames']), ('c_string_fnames', ['-c', '-string', '-fnames']), ('c', ['-c']),
                  ('c_promisc_fnames', ['-c', '-promiscuous', '-fnames']), ('c_string', ['-c', '-string']),
                  ('c_fnames_fptrs', ['-c', '-fnames', '-fptrs']), ('c_fnames_uniq', ['-c', '-fnames', '-unique-names']),
                  ('c_fnames_nodb', ['-c', '-fnames', '-nodb']), ('c_true_names', ['-c', '-true-names']),
-                 ('py_string_fnames', ['-python', '-string', '-fnames']), ('py_fnames', ['-python', '-fnames']), ('py', ['-python'])],
+                 ('py_string_fnames', ['-python', '-string', '-fnames']), ('py_fnames', ['-python', '-fnames']), ('py', ['-python']),
+                 ('c_refcount_fnames', ['-c', '-refcount', '-fnames']), ('c_refcount', ['-c', '-refcount'])],
 }
+# option sets that only run on the corpus headers whose //OPTIONS line names them (-refcount changes nothing for a header
+# without reference-counted classes)
+OPT_IN = {'c_refcount_fnames', 'c_refcount'}
 
 
 def run(cmd, **kw):
@@ -397,7 +409,7 @@ def main():
             allowed = re.search(r'^//OPTIONS\s+(.*)$', open(os.path.join(CORPUS, corpus + '.ref.h')).read(), flags=re.M)
             allowed = set(x.strip() for x in allowed.group(1).split(',')) if allowed else None
             for optname, opts in OPTION_SETS[tier]:
-                if allowed is not None and optname not in allowed:
+                if (allowed is not None and optname not in allowed) or (allowed is None and optname in OPT_IN):
                     continue
                 tag = '%s.%s' % (corpus, optname)
                 wd = os.path.join(scratch, tag)
@@ -424,6 +436,20 @@ def main():
                 if sc.returncode != 0:
                     violations.append(dict(corpus=tag, what='generated code does not compile: ' + sc.stdout[-700:], cmd=' '.join(cmd)))
                     continue
+                # C11 link: the signature the DATABASE records for a wrapper that is callable by name must be the signature of
+                # the function the generated code defines.  Every such wrapper is redeclared from the database, after the
+                # generated code, in one translation unit: a different return or parameter type is a conflicting declaration.
+                named_c = [w for w in db['wrappers'] if w['callable_by_name'] and w['kind'] == 'c']
+                if named_c:
+                    redecl = os.path.join(wd, 'redecl_%s.cxx' % tag.replace('.', '_'))
+                    open(redecl, 'w').write('\n'.join(['#include "%s"' % gen] + [
+                        'extern "C" %s %s(%s);' % (cxx_type(w['return']) if w['has_return'] else 'void', w['name'],
+                                                   ', '.join(cxx_type(p['type']) for p in w['params'])) for w in named_c]) + '\n')
+                    sc = run(['clang++-14', '-std=gnu++11', '-fsyntax-only', '-w', '-ferror-limit=4'] + incs + [redecl])
+                    if sc.returncode != 0:
+                        diag = [re.sub(r'^\S*/', '', ln) for ln in sc.stdout.split('\n') if ' error: ' in ln or ' note: ' in ln]
+                        violations.append(dict(corpus=tag, what='wrapper signature recorded in the database conflicts with the function the generated code defines: ' + ' | '.join(diag[:4])[:700], cmd=' '.join(cmd)))
+                        continue
                 kind = 'python' if '-python' in opts else 'c'
                 callable_w = [w for w in db['wrappers'] if w['callable_by_name'] and w['kind'] == kind]
                 if '-nodb' in opts or not callable_w:
@@ -556,7 +582,7 @@ def main():
                                 explanation='translation validation by solver: wrapper declared from the DATABASE signature vs the direct C++ call of the corpus, on twin symbolic arguments'),
                   assumptions=['claim is per corpus entry (corpus/c01/*.h), not for all headers', 'dconfig.h is an empty shim (this repository does not ship it)',
                                'operator new never fails; clang-14 -O1 lowering, ll2c.py and the models are trusted, guarded by witness assertions and native replay',
-                               'the -python back end and -fptrs/-refcount options are outside the claim'],
+                               'the -python back end and the -fptrs option are outside the claim; -refcount is covered for corpus s7 only'],
                   wall_s=round(time.time() - t0, 1), violations=len(violations))
         json.dump(ev, open(os.path.join(VERIF, 'evidence', prop + '.json'), 'w'), indent=1)
     except Exception as e:
